@@ -430,7 +430,13 @@ func panicToError(p any, skip int) *testError {
 	}
 
 	callers := make([]uintptr, tracebackLen)
-	callers = callers[:runtime.Callers(skip, callers)]
+	for n := runtime.Callers(skip, callers); ; n = runtime.Callers(skip, callers) {
+		if n < len(callers) {
+			callers = callers[:n]
+			break
+		}
+		callers = make([]uintptr, 2*len(callers)) // the failure site is the whole stack up to checkOnce
+	}
 	frames := runtime.CallersFrames(callers)
 
 	b := &strings.Builder{}
